@@ -256,8 +256,9 @@ def doc_texts(attrs):
     return [rust_trim(a[2][1]) for a in attrs if a[0] == "nv" and a[1] == ["doc"] and a[2] and a[2][0] == "s"]
 
 
-def positions(file):
-    """[(position kind, trimmed doc string)] of the annotated items of an abstract file"""
+def positions(file, doc_texts=doc_texts):
+    """[(position kind, trimmed doc string)] of the annotated items of an abstract file (`doc_texts`: what to list per attribute
+    list; by default the trimmed strings of its text-carrying doc attributes)"""
     out = []
 
     def fields(fs, kind):
@@ -463,7 +464,211 @@ def replay(check, v):
     print("\n".join(a["ok"].values()))
     print("sentinels outside a comment:", out)
     print("same output as stored:", a == l2.norm(v.get("implementation") or {}))
-    return 1 if out else 0
+    alltext = "".join(a["ok"].values())
+    lost = [d for _, d in case.get("docs") or [] if any(s not in alltext for s in SENT.findall(d))]
+    if "docs" in case:
+        print("doc lines of the source that are not reproduced:", lost)
+        print("text of text-less doc attributes in the output:", MARK.findall(alltext))
+    return 1 if out or lost or ("docs" in case and MARK.search(alltext)) else 0
+
+
+# ----------------------------------------------------------------------------- doc attributes that carry no text
+
+def textless_forms(marker):
+    """[(name, attribute)]: the forms of `doc` attributes that hold no documentation text of their own (rustdoc directives,
+    values that are not plain string literals).  `marker()` gives a fresh token `N<k>Q`, planted wherever such a form has a
+    string of its own; none of them may ever show up in generated code"""
+    return [
+        ("hidden", m_list("doc", [m_path("hidden")])),
+        ("inline", m_list("doc", [m_path("inline")])),
+        ("no_inline", m_list("doc", [m_path("no_inline")])),
+        ("alias", m_list("doc", [m_nv("alias", lit_s(marker()))])),
+        ("alias-list", m_list("doc", [], parsed=False, raw='alias("%s", "%s")' % (marker(), marker()))),
+        ("cfg", m_list("doc", [m_list("cfg", [m_nv("feature", lit_s(marker()))])])),
+        ("two-directives", m_list("doc", [m_path("hidden"), m_nv("alias", lit_s(marker()))])),
+        ("empty-list", m_list("doc", [])),
+        ("bare", m_path("doc")),
+        ("include_str", m_nv("doc", ("o", 'include_str!("%s.md")' % marker()))),
+        ("concat", m_nv("doc", ("o", 'concat!("%s", "b")' % marker()))),
+        ("env", m_nv("doc", ("o", 'env!("%s")' % marker()))),
+        ("path-value", m_nv("doc", None)),
+        ("number", m_nv("doc", ("i", 7, ""))),
+        ("byte-string", m_nv("doc", ("o", 'b"%s"' % marker()))),
+        ("bool", m_nv("doc", ("o", "true"))),
+        ("cfg_attr-docsrs", m_list("cfg_attr", [m_path("docsrs"), m_list("doc", [m_list("cfg", [m_nv("feature", lit_s(marker()))])])])),
+    ]
+
+
+MARK = re.compile(r"N\d+Q")
+
+
+def is_textless(a):
+    if a[0] == "l" and a[1] == ["cfg_attr"]:
+        return True
+    return a[1] == ["doc"] and not (a[0] == "nv" and a[2] and a[2][0] == "s")
+
+
+class TextlessDocGen(DocGen):
+    """DocGen that puts 0-3 text-less doc attributes before / between / after the doc lines of a position (also on positions
+    without any doc line)"""
+
+    def __init__(self, rng, exclude, p_textless=0.5, **opts):
+        super().__init__(rng, exclude, **opts)
+        self.p_textless = p_textless
+        self.n = 0
+
+    def marker(self):
+        self.n += 1
+        return "N%dQ" % self.n
+
+    def docs(self):
+        out = super().docs()
+        if self.rng.random() >= self.p_textless:
+            return out
+        for _ in range(self.rng.choice([1, 1, 1, 2, 3])):
+            name, a = self.rng.choice(textless_forms(self.marker))
+            at = self.rng.randint(0, len(out))
+            where = "alone" if not out else "before" if at == 0 else "after" if at == len(out) else "between"
+            out.insert(at, a)
+            self.hit("textless-" + name)
+            self.hit("textless-placed-" + where)
+        return out
+
+
+def without_textless(file):
+    """the same abstract file with every text-less doc attribute removed"""
+    import copy
+    f = copy.deepcopy(file)
+
+    def strip(al):
+        al[:] = [a for a in al if not is_textless(a)]
+
+    def fields(fs):
+        if fs[0] != "unit":
+            for x in fs[1]:
+                strip(x["attrs"])
+
+    def walk(items):
+        for it in items:
+            k = it["kind"]
+            if k in ("mod", "other"):
+                walk(it["items"])
+                continue
+            if k == "use":
+                continue
+            strip(it["attrs"])
+            if k == "struct":
+                fields(it["fields"])
+            elif k == "enum":
+                for v in it["variants"]:
+                    strip(v["attrs"])
+                    fields(v["fields"])
+    walk(f["items"])
+    return f
+
+
+def textless_doc_part(check):
+    """Dimension: doc attributes that carry NO text - `#[doc(hidden)]`, `#[doc(inline)]`, `#[doc(alias = "..")]`,
+    `#[doc(alias(..))]`, `#[doc(cfg(..))]`, `#[doc()]`, `#[doc]`, `#[doc = include_str!(..)]`, `#[doc = concat!(..)]`,
+    `#[doc = env!(..)]`, `#[doc = some::PATH]`, `#[doc = 7]`, `#[doc = b".."]`, `#[doc = true]`, `#[cfg_attr(docsrs, doc(cfg(..)))]` -
+    0-3 of them before / between / after the ordinary doc lines (`///`, `/** */`, `#[doc = ".."]`, the C15 alphabet) of types,
+    fields, variants, struct-variant fields and aliases, shuffled among the other attributes, also alone on positions without
+    doc lines; six languages.
+    Demands, on the implementation's output: (1) every sentinel of every text-carrying doc line is reproduced, as often as the
+    line is written, and lies inside a comment (files with an entry of the open Scala class: reproduced only); (2) nothing of a
+    text-less attribute (its alias / path / feature strings, marked `N<k>Q`) is injected into the output; (3) the output is byte
+    for byte the output for the same file without the text-less attributes (they carry no text: the right comment stays on the
+    right item, nothing moves).  The model is run on the same files and compared byte for byte."""
+    rng = check.rng
+    nfiles = 400 if check.thorough else 50
+    cases = []
+    for i in range(nfiles):
+        exclude = {c for c in ("newline", "tsclose", "triple") if rng.random() < 0.5}
+        g = TextlessDocGen(rng, exclude, p_textless=0.5, p_doc=0.85, p_skip=0.0, p_cfg=0.0, p_edge=0.0, p_const=0.0,
+                           p_serialized_as=0.0, p_unsupported=0.0, p_noise=0.15, p_mod=0.15, max_depth=2, p_decorators=0.03,
+                           p_type_decorators=0.03)
+        f = g.file()
+        if not any(k.startswith("textless-") for k in g.features):
+            continue
+        f0 = without_textless(f)
+        docs = positions(f)
+        for k, v in g.features.items():
+            if k.startswith("textless-"):
+                check.count(k, v)
+        for pos, with_text in positions(f, lambda al: [bool(doc_texts(al))] if any(is_textless(a) for a in al) else []):
+            check.count("textless-on-%s%s" % (pos, "-with-doc-lines" if with_text else "-alone"))
+        for lang in LANGS:
+            m, r, t = one_file_request(lang, f, g)
+            _, r0, t0 = one_file_request(lang, f0, g)
+            cases.append(dict(lang=lang, docs=docs, m=m, r=r, r0=r0, src=t[0], src0=t0[0], names=l2.names_of(f)))
+    if not cases:
+        return
+    allnames = set().union(*[c["names"] for c in cases])
+    mans = [l2.norm(a) for a in model([c["m"] for c in cases], names=allnames)]
+    rans = [l2.norm(a) for a in runner([c["r"] for c in cases] + [c["r0"] for c in cases])]
+    rans, rans0 = rans[:len(cases)], rans[len(cases):]
+    first_diff = None
+    for c, ma, ra, ra0 in zip(cases, mans, rans, rans0):
+        lang = c["lang"]
+        case = {"source": c["src"], "lang": lang, "request": c["r"], "docs": c["docs"]}
+        check.saw("textless|" + lang + "|" + c["src"], nontrivial=bool(c["docs"]))
+        check.count("textless-" + lang)
+        if "ok" in ra:
+            texts = list(ra["ok"].values())
+            alltext = "".join(texts)
+            j = judge(lang, c["docs"], texts)
+            src_counts = {}
+            for _, d in c["docs"]:
+                for s_ in SENT.findall(d):
+                    src_counts[s_] = src_counts.get(s_, 0) + 1
+            lost = [(p, d) for p, d in c["docs"] if any(s_ not in j["seen"] for s_ in SENT.findall(d))]
+            if lost:
+                check.violation("%s: the doc line %r of a %s is not reproduced in the generated code (%d of the %d doc lines of the file "
+                                "are missing); the file has doc attributes without text (#[doc(hidden)], #[doc(alias = ..)], "
+                                "#[doc = include_str!(..)] ...) next to its doc lines"
+                                % (lang, lost[0][1], lost[0][0], len(lost), len(c["docs"])), case=case, impl=ra, model=ma, failing_input=True)
+                return
+            few = [(s_, k, len(re.findall(r"%s(?!\d)" % re.escape(s_), alltext))) for s_, k in src_counts.items()]
+            few = [x for x in few if x[2] < x[1]]
+            if few and not j["bad"]:
+                check.violation("%s: a doc line written %d times on one item is printed %d time(s) (sentinel %s)" % (lang, few[0][1], few[0][2], few[0][0]),
+                                case=case, impl=ra, model=ma, failing_input=True)
+                return
+            if j["outside"] and not j["bad"]:
+                check.violation("%s: doc text is generated outside a comment; sentinels %s" % (lang, j["outside"][:5]),
+                                case=case, impl=ra, model=ma, failing_input=True)
+                return
+            inj = MARK.findall(alltext)
+            if inj:
+                check.violation("%s: text of a doc attribute that carries no documentation (%s) is injected into the generated code"
+                                % (lang, inj[:3]), case=case, impl=ra, model=ma, failing_input=True)
+                return
+            check.count("textless-reproduced-" + lang)
+        else:
+            check.count("textless-impl-" + "/".join(sorted(ra.keys())))
+        if ra != ra0 and ("ok" in ra or "ok" in ra0):
+            what = None
+            if "ok" in ra and "ok" in ra0:
+                for k in ra["ok"]:
+                    what = what or (l2.text_diff(ra0["ok"].get(k, ""), ra["ok"][k]) or "").replace("model:", "without:").replace("impl :", "with   :")
+            check.violation("%s: the generated code changes when the doc attributes that carry no text are removed from the source "
+                            "(without them vs with them): %s" % (lang, what or (str(ra0)[:200] + " vs " + str(ra)[:200])),
+                            case=dict(case, source_without_textless=c["src0"], request_without_textless=c["r0"],
+                                      output_without_textless=ra0),
+                            impl=ra, model=ma, failing_input=True)
+            return
+        if ma != ra and first_diff is None:
+            first_diff = (c, ma, ra)
+    if first_diff:
+        c, ma, ra = first_diff
+        what = None
+        if "ok" in ma and "ok" in ra:
+            for k in ra["ok"]:
+                what = what or l2.text_diff(ma["ok"].get(k, ""), ra["ok"][k])
+        check.violation("%s generation of a file with text-less doc attributes differs from the model: %s"
+                        % (c["lang"], what or (str(ma)[:200] + " vs " + str(ra)[:200])),
+                        case={"source": c["src"], "lang": c["lang"], "request": c["r"]}, impl=ra, model=ma, failing_input=False,
+                        broken="correspondence L2 parse_comment_attrs on doc attributes without a string literal (theorem TsV.C15.C15_parser)")
 
 
 # ----------------------------------------------------------------------------- the check
@@ -498,6 +703,10 @@ def run(check):
                   "comment tokens, for every file none of whose comment entries (doc string split at LF / CRLF / CR, trimmed) "
                   "is in the open class (Scala, U+001A); the witnesses of the three repaired classes are replayed and must "
                   "pass the oracle; "
+                  "text-less doc attributes (doc(hidden / inline / alias / cfg), doc = include_str! / concat! / env! / path / number / "
+                  "byte string, bare doc, cfg_attr(docsrs, doc(..))) 0-3 per position before / between / after the doc lines: every "
+                  "doc line reproduced inside a comment, nothing of the text-less attribute injected, output equal to the output "
+                  "without them; "
                   "non-trivial = the file has a doc string with a dangerous or harmless-special piece")
     replay_witnesses(check)
     if not lean_twins(check, 21000 if check.thorough else 2100):
@@ -618,6 +827,8 @@ def run(check):
                         case={"source": c["src"], "lang": c["lang"], "request": c["r"]}, impl=ra, model=ma, failing_input=False,
                         broken="correspondence L2 generate_types incl. parse_comment_attrs / write_comments (theorems TsV.C15.C15_exact, "
                                "C15_partial, C15_all_but_scala, C15_parser, C15_render)")
+    if not check.has_failing():
+        textless_doc_part(check)
     if not check.has_failing():
         on_disk_part(check)
     check.assumptions += [
